@@ -37,12 +37,12 @@ PLAN = {
     "quick": [
         _g("xilinx7", ["S7PLL", "S7MMCM"], 220),
         _g("lattice", ["ECP5PLL", "iCE40PLL"], 260, full=2000),
-        _g("xilinx6us", ["S6PLL", "S6DCM"] + _XUS, 100),
+        _g("xilinx6us", ["S6PLL", "S6DCM"] + _XUS, 120),
         _g("uspmmcm", ["USPMMCM"], 30),
-        _g("nx", ["NXPLL"], 40),
-        _g("intel", _INTEL, 60),
-        _g("gowin", _GOWIN, 90),
-        _g("trion", ["TRIONPLL"], 40),
+        _g("nx", ["NXPLL"], 60),
+        _g("intel", _INTEL, 80),
+        _g("gowin", _GOWIN, 180),
+        _g("trion", ["TRIONPLL"], 60),
     ],
     "thorough": [
         _g("xilinx7", ["S7PLL", "S7MMCM"], 2500, single=3000, full=2500),
@@ -223,7 +223,10 @@ def _signature(case, clause, verdict, witness):
         sig["stage"] = case["stage"]
         sig["all_outputs_used"] = len(req["outs"]) == d["nmax"]
         if isinstance(witness, dict) and "fbks" in witness:
+            # ECP5 with all outputs used: which outputs could carry the feedback in the exhibited setting, and is
+            # there any setting at all whose feedback does not run through the first output
             sig["feedback_candidates"] = sorted(witness["fbks"])
+            sig["feasible_with_feedback_on_other_output"] = bool(witness["fb_other"])
         if isinstance(witness, dict) and "port_div" in witness:
             # Gowin rPLL: can the highest requested frequency come straight from CLKOUT at all, and is the output
             # the solver takes as its reference (largest margin, first among equals) the highest one
@@ -290,6 +293,16 @@ def _run(prop, report, tier, seed, scratch):
                   "copies that literal: " + "; ".join(sorted({"%s: %s" % (d["helper"], l) for d in devs for l in d["literal"]})))
     report.assume("floating point: a candidate within 1e-9 relative of a margin / range boundary, or mathematically on it "
                   "while clkin/divider is not a whole number of Hz, is indeterminate: never a violation, never a witness")
+    report.assume("any exception raised by register_clkin / create_clkout / finalize counts as a refusal of the request; "
+                  "the refusal clause is judged for requests inside the declared clkin / clkout ranges (Gowin: all "
+                  "phases 0; Gowin rPLL search: at most one requested clock per port CLKOUT, CLKOUTD, CLKOUTD3)")
+    report.assume("Intel: the config dict holds M and C_i*N only; N is any declared divider consistent with them. "
+                  "TRIONPLL runs on a stub of EfinixPlatform (the real one needs the Efinity data base), clock input from "
+                  "the fabric, first output is the feedback, margin 0 only (compute_config ignores margins); its emitted "
+                  "'instance' is the interface-designer block the configuration is written into")
+    report.assume("phase parameters are compared per primitive encoding (Xilinx/GW5A: equal to the config entry; ECP5 "
+                  "CPHASE/FPHASE and NX DELx: phase in divider steps; ALTPLL: picoseconds +-1); whether a phase is "
+                  "achievable is not part of C20")
     # ---- 1. requests from the TLA+ request space
     reqs, seen = [], set()
     groups = {}
@@ -379,8 +392,21 @@ def _run(prop, report, tier, seed, scratch):
                            "config_x8": {a: b for a, b in c["cfg"].items() if a != "_"},
                            "instance": c["inst"]["of"], "verdict": verdicts[i]})
             k += 1
-    if not any(p["configured"] for p in per.values()) or not any(p["refused"] for p in per.values()):
-        raise MachineryError("vacuous run: no configured or no refused request")
+    # vacuity: every helper family of the plan produced accepted configurations, and for every model kind the
+    # refusal search really ran
+    fams, kinds = {}, {}
+    for i, c in enumerate(cases):
+        f = fams.setdefault(c["dev"]["sub"], {"configured": 0, "refused": 0, "refusals_searched": 0})
+        f["configured" if verdicts[i]["res"] == "ok" else "refused"] += 1
+        f["refusals_searched"] += verdicts[i]["refuse"] in (0, 1, 2)
+        kinds[c["dev"]["kind"]] = kinds.get(c["dev"]["kind"], 0) + (verdicts[i]["refuse"] in (0, 1, 2))
+    report.add(per_family=fams)
+    for f, n in sorted(fams.items()):
+        if not n["configured"]:
+            raise MachineryError("vacuous run for family %s: %r" % (f, n))
+    for k2, n in sorted(kinds.items()):
+        if not n:
+            raise MachineryError("vacuous run: no refusal judged for model kind %s" % k2)
 
 
 def replay(path):
